@@ -8,12 +8,14 @@ D == INSTANCE Decide
 Cases == JsonDeserialize(IOEnv.VERIF_CASES)
 VARIABLES i, bad
 tvars == <<own, deps, out, pc, i, bad>>
-TInit == i = 1 /\ bad = {} /\ own = [st |-> "ABSENT", s |-> -1] /\ deps = <<>> /\ out = [decision |-> "", status |-> ""] /\ pc = "todo"
-Exp(c) == [decision |-> D!Decision(c.own, c.deps), status |-> D!NewStatus(c.own, c.deps)]
+TInit == i = 1 /\ bad = {} /\ own = [st |-> "ABSENT", s |-> -1] /\ deps = <<>> /\ pc = "todo"
+         /\ out = [decision |-> "", status |-> "", allowed |-> {}, free |-> FALSE]
+Exp(c) == [decision |-> D!Decision(c.own, c.deps), status |-> D!NewStatus(c.own, c.deps),
+           allowed |-> D!Allowed(c.own, c.deps), free |-> D!FreeOwn(c.own)]
 TStep == /\ i <= Len(Cases) /\ i' = i + 1
          /\ own' = Cases[i].own /\ deps' = Cases[i].deps /\ out' = Exp(Cases[i]) /\ pc' = "done"
-         /\ bad' = IF Exp(Cases[i]) = [decision |-> Cases[i].obs.decision, status |-> Cases[i].obs.status]
-                   THEN bad ELSE bad \cup {<<Cases[i].id, Exp(Cases[i])>>}
+         /\ bad' = IF D!Accepts(Cases[i].own, Cases[i].deps, Cases[i].obs)
+                   THEN bad ELSE bad \cup {<<Cases[i].id, [decision |-> Exp(Cases[i]).decision, status |-> Exp(Cases[i]).status]>>}
          /\ (i = Len(Cases) => TLCSet(1, bad'))
 TSpec == TInit /\ [][TStep]_tvars
 ReleaseOnlyWhenAllFinal == D!ReleaseOnlyWhenAllFinal
